@@ -70,7 +70,17 @@ ChainCases ==
   \cup { [t |-> <<SPrint(Log(l1, Log(l2, Lit(N(0)), Lit(N(1))), Bin("==", Lit(N(2)), Lit(N(2)))))>>, c |-> "chain|" \o l2 \o "|" \o l1 \o "|left", key |-> "chain (0 " \o l2 \o " 1) " \o l1 \o " 2==2"] : l1 \in {"and", "or"}, l2 \in {"and", "or"} }
   \cup { [t |-> <<SPrint(Log(l1, Lit(N(0)), Log(l2, Lit(N(1)), Bin("==", Lit(N(2)), Lit(N(3))))))>>, c |-> "chain|" \o l1 \o "|" \o l2 \o "|right", key |-> "chain 0 " \o l1 \o " (1 " \o l2 \o " 2==3)"] : l1 \in {"and", "or"}, l2 \in {"and", "or"} }
 
-Cases == SetToSeq(BinCases \cup UnCases \cup RandCases \cup ChainCases)
+(* round 7: a number spliced behind the EMPTY string is still a string (it concatenates, and equals the same number spliced
+   in front of the empty string), and both zeros spliced in one run keep their own text whichever comes first *)
+EmptyPre == { <<"5", Lit(N(5))>>, <<"0", Lit(N(0))>>, <<"-0", Neg(Lit(N(0)))>>, <<"1e6", Lit(D("1000000"))>>, <<"0.5", Lit(D("0.5"))>>, <<"-3", Neg(Lit(N(3)))>> }
+SpliceCases ==
+  { [t |-> <<SPrint(Bin("+", Bin("+", Lit(S("")), n[2]), Lit(N(1))))>>, c |-> "chain|empty-prefix|+", key |-> "chain (''+" \o n[1] \o ")+1"] : n \in EmptyPre }
+  \cup { [t |-> <<SPrint(Bin("==", Bin("+", Lit(S("")), n[2]), Bin("+", n[2], Lit(S("")))))>>, c |-> "chain|empty-prefix|==", key |-> "chain (''+" \o n[1] \o ")==(" \o n[1] \o "+'')"] : n \in EmptyPre }
+  \cup { [t |-> <<SPrint(Arr(<<Bin("+", Lit(S("")), n[2]), Bin("+", Bin("+", Lit(S("")), n[2]), Lit(S("")))>>))>>, c |-> "chain|empty-prefix|arr", key |-> "chain [''+" \o n[1] \o "]"] : n \in EmptyPre }
+  \cup { [t |-> <<SPrint(Bin("+", Lit(S("z")), z[1])), SPrint(Bin("+", Lit(S("z")), z[2])), SPrint(Bin("+", z[1], Lit(S("z")))), SPrint(Arr(<<z[2], z[1]>>)), SPrint(Bin("+", Lit(S("z")), z[1]))>>,
+          c |-> "chain|both-zeros", key |-> "chain zeros " \o z[3]] : z \in { <<Lit(N(0)), Neg(Lit(N(0))), "pos-first">>, <<Neg(Lit(N(0))), Lit(N(0)), "neg-first">> } }
+
+Cases == SetToSeq(BinCases \cup UnCases \cup RandCases \cup ChainCases \cup SpliceCases)
 Programs == TLCEval([i \in 1..Len(Cases) |-> LayoutProg(Cases[i].t, 1)])
 FamProgOf(i) == Programs[i]
 Init == \E i \in 1..Len(Programs) : InitSem(i, <<>>, FALSE)
